@@ -56,10 +56,10 @@ _END_PATTERN = r"(?:[ \t]*(?:{}))*[ \t]*$".format(
                 # comment styles, but which we want to nonetheless strip away
                 # while parsing.
                 # ex: <tag value="Copyright Jane Doe">
-                r'"\s*/*>',
-                r"'\s*/*>",
+                r'"[ \t]*/*>',
+                r"'[ \t]*/*>",
                 # ex: [SPDX-License-Identifier: GPL-3.0-or-later] ::
-                r"\]\s*::",
+                r"\][ \t]*::",
             }
         )
     )
